@@ -8,6 +8,7 @@
                                       (k: 0 number 1 currency 2 other punctuation 3 whitespace 4 other); "P" or the spans of the lints
      L c s1 e1 h1 s2 e2 h2 ...     -> harper-cli's lint arm on raw lints (span, hash of the message): c = 1 for --count; "N n", "E" (No lints found)
                                       or "L coloured positions | anchor hash anchor hash ..." (pairs sorted) as read off the printed report
+     D s1 e1 l1 s2 e2 l2 ...       -> remove_overlaps on lints that may be EXACTLY equal (same span, same label l); prints "s e l" of the kept lints in order
      M s e s e | s e | ...          -> merge_linters!: one section per sub-linter in declaration order; prints the kept ids *)
 let rec htriples = function a :: b :: h :: t -> ((nat_of_int a, nat_of_int b), h) :: htriples t | _ -> []
 let rec pairs = function a :: b :: t -> (nat_of_int a, nat_of_int b) :: pairs t | _ -> []
@@ -82,4 +83,9 @@ let () =
     | 'M' ->
         let kept = run_merge_ids (List.map (fun sec -> pairs (ints_of_line sec)) (split_bar body)) in
         print_endline (String.concat " " (List.map (fun k -> string_of_int (int_of_nat k)) kept))
+    | 'D' ->
+        let items = Array.of_list (htriples (ints_of_line body)) in
+        let kept = run_remove_overlaps (List.map fst (Array.to_list items)) in
+        print_endline (String.concat " " (List.map (fun k -> let ((a, b), l) = items.(int_of_nat k) in
+          string_of_int (int_of_nat a) ^ " " ^ string_of_int (int_of_nat b) ^ " " ^ string_of_int l) kept))
     | _ -> print_endline "?")
